@@ -9,7 +9,7 @@ Proof.
   induction cl as [|[w c] cl IH]; intros p we rest' W Hwe St.
   - exists 1%nat. intros [|f] Hf; [lia|]. cbn [clauses_text map List.concat app fold_left].
     rewrite (controllers_ws (S f) p we rest' Hwe). apply controllers_end. left. auto.
-  - inversion W as [|? ? ? ? Hw Hne Hc Wr]; subst. specialize (IH (apply_clause p c) we rest' Wr Hwe St).
+  - inversion W as [|? ? ? ? Hw Hc Wr]; subst. specialize (IH (apply_clause p c) we rest' Wr Hwe St).
     unfold clauses_text in *. cbn [map List.concat fst snd fold_left]. rewrite <- !app_assoc.
     eapply evOk_ext; [intros f; apply (controllers_ws_norm f p w _ Hw)|].
     destruct c as [w1 w2 w3 v|nt w0 items|w0 items]; cbn [clause_text apply_clause clause_ok] in *.
@@ -37,25 +37,23 @@ Proof.
   intros Hne Hc Hd Ha W Hwe St.
   assert (Hend : forall f p, p_name p <> [] -> possi_loop (S f) p rel rest' = Ok (rel ++ [p], rest')).
   { intros f p Hq. cbn [possi_loop].
-    pose proof (by_enum (fun c => negb (stop3 c) || (negb (eqc c 58) && negb (is_ws c) && negb (eqc c 40))) eq_refl (peek rest')) as F.
-    cbv beta in F. rewrite St in F. cbn in F. apply andb_true_iff in F as [F F3]. apply andb_true_iff in F as [F1 F2].
-    apply negb_true_iff in F1, F2, F3. rewrite F1, F2, F3. cbn [orb]. pose proof St as St'. unfold stop3 in St'. rewrite St'.
+    pose proof (by_enum (fun c => negb (stop3 c) || (negb (eqc c 58) && negb (ctlhead c))) eq_refl (peek rest')) as F.
+    cbv beta in F. rewrite St in F. cbn in F. apply andb_true_iff in F as [F1 F2].
+    apply negb_true_iff in F1, F2. rewrite F1. fold (ctlhead (peek rest')). rewrite F2. pose proof St as St'. unfold stop3 in St'. rewrite St'.
     destruct (p_name p); [congruence|reflexivity]. }
   assert (Rn : p_name (result name q cl) <> []) by (unfold result; rewrite fold_name; exact Hne).
   destruct (controllers_any_order_ws cl (base name q) we rest' W Hwe St) as (f1&H1).
   set (T := clauses_text cl ++ we ++ rest') in *.
-  assert (HeadT : (T = rest' /\ cl = [] /\ we = []) \/ is_ws (peek T) = true).
+  assert (HeadT : (T = rest' /\ cl = [] /\ we = []) \/ ctlhead (peek T) = true).
   { subst T. destruct cl as [|wc cl'].
-    - cbn [clauses_text map List.concat app]. destruct we as [|c we']; [left; auto|right]. apply ws_head; [exact Hwe|discriminate].
+    - cbn [clauses_text map List.concat app]. destruct we as [|c we']; [left; auto|right]. unfold ctlhead. rewrite ws_head; [reflexivity|exact Hwe|discriminate].
     - right. apply (clauses_head _ _ _ W). discriminate. }
   assert (Fin : evOk (fun f => possi_loop f (base name q) rel T) (rel ++ [result name q cl], rest')).
   { destruct HeadT as [(ET&Ecl&Ewe)|Hw].
     - rewrite ET. subst cl. exists 1%nat. intros [|f] Hf; [lia|]. apply Hend. exact Hne.
     - exists (S (S f1)). intros [|[|f]] Hf; try lia. cbn [possi_loop].
-      assert (C58 : eqc (peek T) 58 = false).
-      { pose proof (by_enum (fun c => negb (is_ws c) || negb (eqc c 58)) eq_refl (peek T)) as F.
-        cbv beta in F. rewrite Hw in F. cbn in F. now apply negb_true_iff in F. }
-      rewrite C58, Hw. cbn [orb]. rewrite (H1 (S f) ltac:(lia)). apply Hend. exact Rn. }
+      destruct (ctlhead_facts _ Hw) as [C58 _].
+      rewrite C58. fold (ctlhead (peek T)). rewrite Hw. rewrite (H1 (S f) ltac:(lia)). apply Hend. exact Rn. }
   destruct Fin as (f2&H2).
   destruct name as [|c0 n0] eqn:En; [congruence|].
   assert (Hc0 : namec c0 = true) by (cbn in Hc; now apply andb_true_iff in Hc as [? _]).
@@ -71,7 +69,7 @@ Proof.
   - destruct Ha as (Hm&Hrt&Hok). destruct g as [|g]; [lia|]. cbn [qual_text app possi_loop peek].
     change (eqc (ch 58) 58) with true. cbv iota. unfold parse_multiarch. cbn [adv tl].
     assert (Hstop : multiarch_stop (peek T) = true).
-    { apply stop_or_ws_multiarch. destruct HeadT as [(ET&_&_)|Hw]; [left; now rewrite ET|now right]. }
+    { destruct HeadT as [(ET&_&_)|Hw]; [apply stop_or_ws_multiarch; left; now rewrite ET|now destruct (ctlhead_facts _ Hw)]. }
     rewrite (multiarch_word (arch_string a) [] _ Hm Hstop). cbn [app]. rewrite (arch_named_ok _ _ Hok), Hrt.
     replace (set_arch (with_name fresh (c0 :: n0)) a) with (base (c0 :: n0) (Some a)) by reflexivity.
     apply H2. lia.
